@@ -17,6 +17,7 @@ import props.c06_fixed as c6f
 import props.c06_var as c6v
 import props.c07 as c07
 from props.c05 import shared_conf, conf_untouched, contrast_conf, decoded_alone, mutate_cfdp, MUT_ALL, _conf as fresh_conf
+from props.c05 import conf_form_variants
 
 from spacepackets.cfdp.defs import PduType
 from spacepackets.cfdp.pdu import (
@@ -661,6 +662,11 @@ class C12(Prop):
         yield inspect_case(b, f"{k.name}:type-bit")
 
     def cases(self, rng: random.Random, tier: str) -> Iterator[Case]:
+        """the generated stream, then a share of its valid configuration-carrying cases once more with the five PduConfig
+        flags as plain ints / bools (props.c05.conf_form_variants; case key forms.conf)"""
+        yield from conf_form_variants(self._cases_members(rng, tier), rng, share=0.05)
+
+    def _cases_members(self, rng: random.Random, tier: str) -> Iterator[Case]:
         thorough = tier == "thorough"
         self.thorough = thorough
         for c in self._cases(rng, thorough):
